@@ -216,10 +216,14 @@ def merge_evidence(cid, tier, seed, results, wall, violations, inconclusive, kno
         cov["exhaustive_subcheck"] = cfg["exhaustive_part"]
     ev = dict(property_id=cid, tier=tier, seed=seed, level="exploration", coverage=cov,
               assumptions=cfg.get("assumptions", []), wall_s=round(wall, 2), violations=violations)
-    os.makedirs(os.path.join(VERIF, "evidence"), exist_ok=True)
-    tmp = os.path.join(VERIF, "evidence", cid + ".json.tmp")
+    evdir = os.path.join(VERIF, "evidence")
+    if os.environ.get("VERIF_NOEVIDENCE"):  # sensitivity runs against a scratch copy must not touch the real evidence
+        evdir = os.path.join(WORK, "evidence")
+    os.makedirs(evdir, exist_ok=True)
+    tmp = os.path.join(evdir, cid + ".json.tmp")
     json.dump(ev, open(tmp, "w"), indent=1)
-    os.replace(tmp, os.path.join(VERIF, "evidence", cid + ".json"))
+    os.replace(tmp, os.path.join(evdir, cid + ".json"))
+    return os.path.join(evdir, cid + ".json")
 
 
 def known_lines_for(cid):
@@ -308,10 +312,10 @@ def check(cid, tier, replay=None):
                 print("---- output of %s/%d (rc=%s) ----\n%s" % (r["part"], r["shard"], r["rc"], (r["out"] or "")[-5000:]))
         kl = known_lines_for(cid)
         violations = sorted(set(violations))
-        merge_evidence(cid, tier, seed, results, time.time() - t0, len(violations), inconclusive, kl)
+        evpath = merge_evidence(cid, tier, seed, results, time.time() - t0, len(violations), inconclusive, kl)
         for l in kl:
             print(l)
-        ev = json.load(open(os.path.join(VERIF, "evidence", cid + ".json")))["coverage"]
+        ev = json.load(open(evpath))["coverage"]
         print("%s tier=%s seed=%d evaluations=%d distinct_nontrivial=%d wall=%.1fs" % (cid, tier, seed, ev["evaluations"], ev["distinct_nontrivial"], time.time() - t0))
         if violations:
             for v in violations:
